@@ -1,44 +1,46 @@
 """C25 — jq value identities hold for every value."""
 
 
-class _Ans(str):
-    def __eq__(self, other):
-        a, b = str(self), str(other)
-        if "ID-FAIL" in a.split("|")[-1] and "OUT-OF-FRAGMENT" not in a:
-            # the implementation's own identity verdict failed: always a violation unless the
-            # model reproduces exactly the same answer (then it is the same recorded finding)
-            return a == b
-        if "EVALS-DISAGREE" in a or "PANIC" in a:
-            return a == b
-        pa, pb = a.split("|"), b.split("|")
-        if len(pa) != len(pb):
-            return False
-        # per identity: equal, or the model has no verdict for that program
-        return all(x == y or "OUT-OF-FRAGMENT" in y for x, y in zip(pa[:-1], pb[:-1]))
+def _verdict(req, impl, model):
+    """The implementation's own identity verdict (ID-FAIL), EVALS-DISAGREE and PANIC always need an
+    identical model answer; otherwise each identity's run line must equal the model's unless the model
+    has no verdict for that program."""
+    if impl.split("|")[-1] == "ID-FAIL" or "EVALS-DISAGREE" in impl or "PANIC" in impl:
+        return "agree" if impl == model else "disagree"
+    pa, pb = impl.split("|"), model.split("|")
+    if len(pa) != len(pb):
+        return "disagree"
+    if any(x != y and "OUT-OF-FRAGMENT" not in y for x, y in zip(pa[:-1], pb[:-1])):
+        return "disagree"
+    return "skip" if all("OUT-OF-FRAGMENT" in y for y in pb[:-1]) else "agree"
 
-    def __ne__(self, other):
-        return not self.__eq__(other)
 
-    __hash__ = str.__hash__
+def _counters(triples):
+    return {
+        "identity_ok": sum(1 for t in triples if t[1].endswith("|ID-OK")),
+        "identity_fail": sum(1 for t in triples if t[1].endswith("|ID-FAIL")),
+        "model_identity_ok": sum(1 for t in triples if t[2].endswith("|ID-OK")),
+    }
 
 
 CFG = {
     "level": "proof",
-    "level_text": "Lean theorems over the value-level functions of the jq model (Props/C25.lean): cross-kind order, "
-                  "lexicographic arrays, sort = permutation (+ ordered for any total transitive comparator), unique = "
-                  "sublist of the sorted permutation, object field read/write laws, one-step setpath/getpath/frame laws, "
-                  "to_entries|from_entries on duplicate-free objects; tie: the identities (incl. the ones not proved: "
-                  "tojson|fromjson, tostream|fromstream, @base64|@base64d, multi-step paths, order totality) are "
-                  "evaluated by both Rust evaluators on generated values and every path, with an in-process verdict, "
-                  "and diffed with the model's run",
+    "level_text": "Lean theorems over the value-level functions of the jq model (Props/C25.lean, Proof/JqOrder, JqPaths, "
+                  "JqCodec): jq's order is a total preorder on duplicate-free values for every lawful number carrier; sort = "
+                  "ordered permutation; unique = strictly increasing set of representatives; getpath_defined / "
+                  "setpath_getpath_id / getpath_setpath / setpath_frame for every p in paths v; to_entries|from_entries on "
+                  "duplicate-free objects; @base64|@base64d and @uri|decode on all byte strings. Not proved (covered by the "
+                  "tie only): tojson|fromjson, tostream|fromstream, cmp=eq iff ==. Tie: all identities are evaluated by both "
+                  "Rust evaluators on generated values and every path, with an in-process verdict, and diffed with the model",
     "level_note": "numbers enter through an abstract carrier; `_partial` theorems name what is missing; @uri decode is "
                   "not checked (`@urid` is a succinctly extension without jq oracle)",
     "technique": "Lean 4 proof over the model + differential correspondence with in-process identity oracle",
     "variants": [{"features": []}],
     "lean_modules": ["SuccinctlyVerif.Props.C25"],
-    "lean_files": ["SuccinctlyVerif/Props/C25.lean", "SuccinctlyVerif/Model/JqValue.lean", "SuccinctlyVerif/Model/Jq.lean"],
+    "lean_files": ["SuccinctlyVerif/Props/C25.lean", "SuccinctlyVerif/Proof/JqOrder.lean", "SuccinctlyVerif/Proof/JqCodec.lean", "SuccinctlyVerif/Proof/JqPaths.lean", "SuccinctlyVerif/Model/JqValue.lean", "SuccinctlyVerif/Model/Jq.lean"],
     "generated": [],
-    "canon": lambda req, out: _Ans(out),
+    "verdict": _verdict,
+    "counters": _counters,
     "nontrivial": lambda req, out: req.split(" ")[3][:2] in ("5b", "7b"),
     "rule": "request = one generated duplicate-free JSON value (all identities evaluated on it and on each of its paths); "
             "non-trivial = the value is a container (request longer than the bare identity list)",
